@@ -14,14 +14,7 @@ namespace Fiddle
     parameters that have a default appear with their default object. -/
 def childrenWithDefaults (o : GObj) : List (PElem × GVal) :=
   if o.kind != .cfg then o.children
-  else
-    let extra := o.sig.zipIdx.filterMap (fun (p, i) =>
-      if !p.dflt || p.kind == .vp || p.kind == .vk then none
-      else
-        let pe : PElem := if p.kind == .po then .index i else .attr p.name
-        if o.children.any (fun c => c.1 == pe) then none
-        else some (pe, GVal.atom s!"Dflt:{p.name}"))
-    o.children ++ extra
+  else o.children ++ o.defaults.filter (fun d => !o.children.any (fun c => c.1 == d.1))
 
 def lookupChild (ch : List (PElem × GVal)) (pe : PElem) : Option GVal :=
   (ch.find? (fun c => c.1 == pe)).map (·.2)
